@@ -3,6 +3,7 @@ package props
 import (
 	"fmt"
 	"os"
+	"runtime"
 	"sync/atomic"
 
 	"github.com/RoaringBitmap/roaring/v2"
@@ -63,6 +64,7 @@ func runC06(c *Ctx) {
 	wr := &explore.Product{Name: "library bytes -> independent spec decoder", Dims: []int{len(corpus)}, Deadline: c.Budget(30, 600), Execs: &execs,
 		Run: func(idx []int) (string, *ev.Fail) {
 			src := corpus[idx[0]].Build()
+			defer runtime.KeepAlive(src)
 			data, err := src.B.ToBytes()
 			if err != nil {
 				return "", fail("ToBytes", "error", "%v", err)
@@ -92,6 +94,7 @@ func runC06(c *Ctx) {
 	rd := &explore.Product{Name: "spec-conformant encodings -> 5 library decoders", Dims: []int{len(corpus), len(encs), len(decoderNames)}, Deadline: c.Budget(100, 1500), Execs: &rexecs,
 		Run: func(idx []int) (string, *ev.Fail) {
 			src := corpus[idx[0]].Build()
+			defer runtime.KeepAlive(src)
 			e := encs[idx[1]]
 			if e.Gran == 1 && src.M.Card() > 70000 {
 				return "skipped-large", nil
